@@ -316,8 +316,36 @@ func c12Updates(c *lab.Ctx) {
 				}
 			case 5: // add or update a cluster (hosts survive a cluster update)
 				name := clusterNames[hrng.Intn(len(clusterNames))]
-				err := ca.TriggerClusterAddOrUpdate(v2.Cluster{Name: name, ClusterType: v2.SIMPLE_CLUSTER, LbType: v2.LB_ROUNDROBIN, MaxRequestPerConn: uint32(1000 + hrng.Intn(5))})
-				desc = fmt.Sprintf("cluster-update(%s,err=%v)", name, err != nil)
+				cc := v2.Cluster{Name: name, ClusterType: v2.SIMPLE_CLUSTER, LbType: v2.LB_ROUNDROBIN, MaxRequestPerConn: uint32(1000 + hrng.Intn(5))}
+				// circuit-breaker thresholds come and go with the update (none / zeros / small values) ...
+				thr := "none"
+				switch hrng.Intn(3) {
+				case 1:
+					cc.CirBreThresholds = v2.CircuitBreakers{Thresholds: []v2.Thresholds{{}}}
+					thr = "zeros"
+				case 2:
+					t := v2.Thresholds{MaxConnections: uint32(hrng.Intn(4)), MaxPendingRequests: uint32(hrng.Intn(4)), MaxRequests: uint32(1 + hrng.Intn(9)), MaxRetries: uint32(hrng.Intn(4))}
+					cc.CirBreThresholds = v2.CircuitBreakers{Thresholds: []v2.Thresholds{t}}
+					thr = fmt.Sprint(t)
+				}
+				// ... while, half of the time, a unit of every resource of the live cluster is held (a request, a connection, a retry in
+				// flight at the moment of the update) and given back right after it
+				var held types.ResourceManager
+				if snap := ca.GetClusterSnapshot(context.Background(), name); snap != nil && hrng.Bool() {
+					held = snap.ClusterInfo().ResourceManager()
+					held.Connections().Increase()
+					held.PendingRequests().Increase()
+					held.Requests().Increase()
+					held.Retries().Increase()
+				}
+				err := ca.TriggerClusterAddOrUpdate(cc)
+				if held != nil {
+					held.Connections().Decrease()
+					held.PendingRequests().Decrease()
+					held.Requests().Decrease()
+					held.Retries().Decrease()
+				}
+				desc = fmt.Sprintf("cluster-update(%s,thresholds=%s,held=%v,err=%v)", name, thr, held != nil, err != nil)
 				if err == nil {
 					everClusters[name] = true
 					if _, ok := model.clusters[name]; !ok {
@@ -620,6 +648,20 @@ func c12Compare(c *lab.Ctx, model *c12Model, routerNames, clusterNames []string,
 		}
 		if !exists {
 			continue
+		}
+		// the limits the live cluster enforces are those of the stored configuration
+		var dthr v2.Thresholds
+		for _, cl := range dumped.ClusterManager.Clusters {
+			if cl.Name == name && len(cl.CirBreThresholds.Thresholds) > 0 {
+				dthr = cl.CirBreThresholds.Thresholds[0]
+			}
+		}
+		rmgr := snap.ClusterInfo().ResourceManager()
+		liveThr := [4]uint64{rmgr.Connections().Max(), rmgr.PendingRequests().Max(), rmgr.Requests().Max(), rmgr.Retries().Max()}
+		dumpThr := [4]uint64{uint64(dthr.MaxConnections), uint64(dthr.MaxPendingRequests), uint64(dthr.MaxRequests), uint64(dthr.MaxRetries)}
+		if liveThr != dumpThr {
+			c.Violation("dump-equals-live", "C12/cluster/thresholds-live-vs-dump/after="+lastOp,
+				fmt.Sprintf("cluster %s: the live cluster enforces (connections, pending, requests, retries) = %v, the stored configuration says %v", name, liveThr, dumpThr), wit(""))
 		}
 		if fmt.Sprint(live) != fmt.Sprint(d) {
 			c.Violation("dump-equals-live", "C12/cluster/hosts-live-vs-dump/after="+lastOp,
